@@ -13,14 +13,31 @@ from .c09 import BAD
 def cases(draw, tier):
     proj = draw(sgen.graphs({"max_leaf": 5, "max_mid": 4, "p_gate": 80, "p_csum": 10, "p_always": 5, "p_fail": 35}))
     L = proj["layers"]
+    shared = None
+    if len(L["leaves"]) >= 2 and draw(st.integers(0, 99)) < 30:
+        # directed family: two dependents of one failing leaf, the second one held at a gate BEFORE it asks for
+        # [failing leaf, other leaf] in one call -- by then the failure is on record ("failed in this run")
+        f, g = sgen._subset(draw, L["leaves"], 2, 2)
+        fb = proj["dofiles"][f + ".do"]["body"]
+        if not any(s[0] == "failflag" for s in fb):
+            fb.insert(draw(st.integers(0, len(fb) - 1)), ["failflag", f, 3])
+        proj["dofiles"]["ma.do"] = {"v": 1, "body": [["dep", 1, [f]], ["out", "stdout"]]}
+        proj["dofiles"]["mb.do"] = {"v": 1, "body": [["work", 0], ["dep", 1, [f, g]], ["out", "stdout"]]}
+        L["mids"] += ["ma", "mb"]
+        proj["targets"] += ["ma", "mb"]
+        shared = (f, g)
     allt = L["tops"] + L["mids"] + L["leaves"]
     fails = sorted({s[1] for spec in proj["dofiles"].values() for s in spec["body"] if s[0] == "failflag"})
     failing = [f for f in fails if draw(st.integers(0, 2)) > 0]
+    if shared and shared[0] not in failing:
+        failing.append(shared[0])
     keep = draw(st.integers(0, 2)) == 0
     env = {} if draw(st.integers(0, 1)) else {"REDO_LOG": "0"}
     if keep:
         env["REDO_KEEP_GOING"] = "1"
     ts = sgen._subset(draw, allt, 2, 5)
+    if shared:
+        ts = ["ma", "mb"] + [t for t in ts if t not in ("ma", "mb")][:draw(st.integers(0, 2))]
     kind = draw(st.sampled_from(["redo", "redo", "ifchange"]))
     m = M.Model(proj)
     if kind == "redo":
@@ -30,6 +47,8 @@ def cases(draw, tier):
                 keepts.append(t)
         ts = keepts
     jobs = draw(st.sampled_from([1, 2, 2, 3, 4]))
+    if shared:
+        jobs = max(jobs, 2)
     js = None
     if kind == "redo":
         argv = ["redo", "-j%d" % jobs] + ts
@@ -96,10 +115,15 @@ def run_case(case, tier):
     owner_inv = {}
     orig_add = r.tl.add
 
+    ppid_of = {}
+
     def add(kind, target, pid, extra):
         orig_add(kind, target, pid, extra)
         if kind == "S" and extra:
             session_of(r, extra, owner_inv)
+            if extra not in ppid_of:
+                _, _, pp, _ = sched.proc_state(extra)
+                ppid_of[extra] = pp
     r.tl.add = add
     try:
         r.run()
@@ -202,6 +226,55 @@ def run_case(case, tier):
                              "detail": dict(ctx, late=late[:5]),
                              "sig": {"symptom": "late-start", "tier": "parallel", "holder": len(r.invs) > 1}}
             return out
+        # (6b) ... nor does a redo process that is TOLD about a failure: a redo-ifchange created after the failure of
+        # x was on record (its calling script left a gate after the quiescent point that followed x's failing exit)
+        # gets "x failed in this run" without running anything, and must not start what is listed after x
+        if not spec["keep"]:
+            dof = case["project"]["dofiles"]
+            told = []
+            gate_left = {}      # script pid -> [seq of its E events]
+            script_target = {}
+            for (seq, k, t, pid, extra) in r.tl.ev:
+                if k == "E":
+                    gate_left.setdefault(pid, []).append(seq)
+                if k == "S":
+                    script_target[pid] = t
+            for (fseq, x, xpid) in failed_scripts:
+                xo = r.tl.owner.get(xpid)
+                if xo is None or owner_inv.get(xo) != mi:
+                    continue            # failed in another invocation's run
+                q = next((qp for qp in r.qpoints if qp > fseq), None)
+                if q is None:
+                    continue
+                for (seq, k, t, pid, extra) in r.tl.ev:
+                    if k != "S" or seq < q or not extra or owner_inv.get(extra) != mi:
+                        continue
+                    caller = ppid_of.get(extra)          # the script that ran this redo-ifchange
+                    ct = script_target.get(caller)
+                    if ct is None or ct + ".do" not in dof:
+                        continue
+                    # the call that lists x before t, placed after a gate the caller left after q
+                    body = dof[ct + ".do"]["body"]
+                    gates_before = 0
+                    hit = False
+                    for stt in body:
+                        if stt[0] == "work":
+                            gates_before += 1
+                        elif stt[0] == "dep" and x in stt[2] and t in stt[2] and stt[2].index(x) < stt[2].index(t):
+                            hit = True
+                            break
+                    if not hit or gates_before == 0:
+                        continue
+                    left = gate_left.get(caller, [])
+                    if len(left) >= gates_before and left[gates_before - 1] >= q:
+                        told.append({"failed": x, "failure_seq": fseq, "quiescent_at": q, "caller": ct,
+                                     "started": t, "seq": seq})
+            ev["c05s:told-about-failure(checked)"] += 1 if failed_scripts else 0
+            if told:
+                out.violation = {"property": "C05", "clause": "started-after-reported-failure", "step": 0,
+                                 "detail": dict(ctx, told=told[:5]),
+                                 "sig": {"symptom": "late-start-told", "tier": "parallel", "holder": len(r.invs) > 1}}
+                return out
         # (5) keep-going: everything requested that does not depend on a failing target is built and correct
         if spec["keep"]:
             bad = []
